@@ -30,6 +30,30 @@ C15_Exact ==
         \/ Report("C15", "structure or literal values of the parsed tree differ from the written script (flattened tree, first difference)", FirstDiff(T.obs.flat, T.expflat)))
   /\ (T.obs.panic # "" \/ T.obs.holes \/ T.obs.nodes = T.expnodes
         \/ Report("C15", "node kinds or ranges differ from first-character .. just-past-last-token (pre-order node list, first difference)", FirstDiff(T.obs.nodes, T.expnodes)))
+\* ---- C16: the checker on texts whose static validity and name diagnostics the specification computed
+NameKinds == {"UnboundVariable", "DuplicateVariable", "UnusedVar"}
+D == T.obs.diags                      \* <<kind, severity, sl, sc, el, ec, name>>
+ObsName(i) == <<D[i][1], D[i][3], D[i][4], D[i][5], D[i][6], D[i][7]>>
+ObsNameIdx == {i \in 1..Len(D) : D[i][1] \in NameKinds}
+CountObs(x) == Cardinality({i \in ObsNameIdx : ObsName(i) = x})
+ExpSet == {T.expnames[i] : i \in 1..Len(T.expnames)}
+C16_Checker ==
+  /\ Check("C16", "the checker panicked", T.obs.panic = "")
+  /\ (T.obs.panic # "" \/ ~T.valid \/ (\A i \in 1..Len(D) : D[i][2] # 1)
+        \/ Report("C16", "a statically valid script received an error-severity diagnostic", CHOOSE j \in 1..Len(D) : D[j][2] = 1))
+  /\ (T.obs.panic # "" \/ (\A x \in ExpSet : CountObs(x) = 1)
+        \/ Report("C16", "an undeclared use / repeated declaration / unused variable is not reported exactly once at its token", 0))
+  /\ (T.obs.panic # "" \/ (\A i \in ObsNameIdx : ObsName(i) \in ExpSet)
+        \/ Report("C16", "a variable was reported although it is declared once and used", CHOOSE j \in ObsNameIdx : ObsName(j) \notin ExpSet))
+\* ---- C17: the same text checked and executed (variable values of the declared types)
+StaticClasses == {"TypeError", "UnboundVariableErr", "UnboundFunctionErr", "BadArityErr", "InvalidTypeErr"}
+ShapeClasses == {"InvalidUnboundedInSendAll", "InvalidAllotmentInSendAll"}
+C17_Sound ==
+  /\ Check("C17", "the checker panicked", T.obs.panic = "")
+  /\ Check("C17", "no error reported, yet execution fails with a static-class error (type, unbound name, arity, unknown type)",
+           (T.obs.panic = "" /\ T.nerr = 0 /\ T.typed) => T.run \notin StaticClasses)
+  /\ Check("C17", "nothing reported at all, yet execution fails because of the shape of a send-all source",
+           (T.obs.panic = "" /\ T.ndiag = 0 /\ T.typed /\ ~T.worldvar) => T.run \notin ShapeClasses)
 Post == TLCGet(2) = 0
 ASSUME TLCSet(2, 0)
 =============================================================================
